@@ -52,6 +52,7 @@ type decProtoCase struct {
 	Ref    bool   `json:"ref,omitempty"`   // PAR1: the set is written by the independent reference writer (comment in the index, an entry not saved in the parity set between the saved ones, a zero-length file) instead of by gopar's Create
 	Disk   bool   `json:"disk,omitempty"`  // exported constructors on a real directory (else: the same objects on the owned in-memory filesystem)
 	VolLast bool  `json:"vollast,omitempty"` // the recovery-file events (delete / restore / cut) act on the LAST recovery file / highest volume instead of the first
+	Start  int    `json:"start,omitempty"` // 1: the sequence begins with both data files and the (first / last, see VolLast) recovery file already gone
 	One    bool   `json:"one,omitempty"`   // the set has ONE recovery block in ONE recovery file (PAR1: one volume): with "delete the first recovery file" no recovery file at all is left
 }
 
@@ -151,7 +152,7 @@ func decProtoOne(c *decProtoCase, seq []int, r *core.Rec, wrap func(*decProtoCas
 		for _, o := range seq {
 			ops = append(ops, dpNames[o])
 		}
-		r.ViolateWith("decoder-protocol:"+sig, fmt.Sprintf(f, a...)+"\nsequence: "+strings.Join(ops, ", "), wrap(&decProtoCase{Fmt: c.Fmt, Seq: append([]int{}, seq...), Disk: c.Disk, Ref: c.Ref, Fault: c.Fault, One: c.One, VolLast: c.VolLast}))
+		r.ViolateWith("decoder-protocol:"+sig, fmt.Sprintf(f, a...)+"\nsequence: "+strings.Join(ops, ", "), wrap(&decProtoCase{Fmt: c.Fmt, Seq: append([]int{}, seq...), Disk: c.Disk, Ref: c.Ref, Fault: c.Fault, One: c.One, VolLast: c.VolLast, Start: c.Start}))
 	}
 	var p2 *scen.P2Set
 	var p1 *scen.P1Set
@@ -206,6 +207,11 @@ func decProtoOne(c *decProtoCase, seq []int, r *core.Rec, wrap func(*decProtoCas
 		if c.Disk {
 			os.Remove(filepath.Join(root, p))
 		}
+	}
+	if c.Start == 1 {
+		del(paths[0])
+		del(paths[1])
+		del(vols[0])
 	}
 	view := func(ps []string) string {
 		var sb strings.Builder
@@ -408,7 +414,7 @@ func decProtoOne(c *decProtoCase, seq []int, r *core.Rec, wrap func(*decProtoCas
 				if kind == "read" {
 					k++
 					if k == failAt {
-						if op == dpLoadParityFault2 {
+						if op == dpLoadParityFault2 || op == dpLoadFilesFault1 {
 							// this one dies half-way: the first half of the file comes back together with the error
 							return &envfs.Fault{Err: envfs.ErrInjected, Partial: envfs.HalfRead, Kind: "half-read"}
 						}
